@@ -13,6 +13,7 @@ use ark_poly::{
 use ark_poly_commit::kzg10::{self, KZG10};
 use ark_poly_commit::multilinear_pc::{self, MultilinearPC};
 use ark_poly_commit::streaming_kzg as sk;
+use ark_poly_commit::PCCommitmentState;
 use ark_std::rand::RngCore;
 use serde_json::{json, Value};
 use std::borrow::Cow;
@@ -392,11 +393,126 @@ fn run_ml(b: &Value) -> Result<DObs, String> {
     Ok(o)
 }
 
+// ------------------------------------------------------------------------------------------------ admission (C17)
+/// One request at a boundary magnitude; returns ("ok" | "refuse", detail, continuation verdict).
+fn run_adm(b: &Value) -> (String, String, Option<String>) {
+    let api = gets(b, "api");
+    let r = &b["stmt"];
+    let op = gets(r, "op");
+    let cls = |o: &str| if o == "ok" { "ok".to_string() } else { "refuse".to_string() };
+    match api {
+        "kzg10" => {
+            let sup = geti(&b["cfg"], "sup") as usize;
+            let mut base = b.clone();
+            base["polys"] = json!([]);
+            let ctx = match kzg_ctx(&base) {
+                Ok(c) => c,
+                Err(e) => return ("refuse".into(), format!("harness: {}", e), None),
+            };
+            let deg = geti(r, "deg") as usize;
+            let p = uni_poly("full", 1, deg, "direct-adm-poly");
+            let z = point(1);
+            if op == "open" {
+                let o = guarded(|| K::open(&ctx.powers(), &p, z, &kzg10::Randomness::<Fr, UP>::empty()));
+                return (cls(o.class()), o.detail(), None);
+            }
+            let hid = geti(r, "hid");
+            let with_rng = r["rng"].as_bool().unwrap_or(true);
+            let mut crng = rng_for("direct-adm-rng", 0);
+            let o = guarded(|| {
+                K::commit(
+                    &ctx.powers(),
+                    &p,
+                    if hid >= 0 { Some(hid as usize) } else { None },
+                    if with_rng { Some(&mut crng as &mut dyn RngCore) } else { None },
+                )
+            });
+            let c = cls(o.class());
+            let d = o.detail();
+            let mut cont = None;
+            if let Out::Ok((comm, rd)) = o {
+                // honest continuation: the admitted commitment opens and verifies
+                let pr = guarded(|| K::open(&ctx.powers(), &p, z, &rd));
+                cont = Some(match pr {
+                    Out::Ok(proof) => decision(&guarded(|| K::check(&ctx.vk, &comm, z, p.evaluate(&z), &proof))).to_string(),
+                    o2 => format!("open {}: {}", o2.class(), o2.detail()),
+                });
+                let _ = sup;
+            }
+            (c, d, cont)
+        }
+        "mlpst" => {
+            let nv = geti(&b["cfg"], "nv") as usize;
+            let sup = geti(&b["cfg"], "sup") as usize;
+            let n = geti(r, "nv") as usize;
+            if op == "setup" {
+                let o = guarded_plain(|| MultilinearPC::<E>::setup(n, &mut rng_for("direct-adm-ml", n as u64)));
+                return (cls(o.class()), o.detail(), None);
+            }
+            let pp = MultilinearPC::<E>::setup(nv, &mut rng_for("direct-ml-setup", nv as u64));
+            if op == "trim" {
+                let o = guarded_plain(|| MultilinearPC::<E>::trim(&pp, n));
+                return (cls(o.class()), o.detail(), None);
+            }
+            let (ck, vk) = MultilinearPC::<E>::trim(&pp, sup);
+            let p = ml_poly("full", 1, n);
+            let mut prng = rng_for("direct-adm-mlpt", n as u64);
+            let pt: Vec<Fr> = (0..n).map(|_| Fr::rand(&mut prng)).collect();
+            if op == "open" {
+                let o = guarded_plain(|| MultilinearPC::<E>::open(&ck, &p, &pt));
+                return (cls(o.class()), o.detail(), None);
+            }
+            let o = guarded_plain(|| MultilinearPC::<E>::commit(&ck, &p));
+            let c = cls(o.class());
+            let d = o.detail();
+            let mut cont = None;
+            if let Out::Ok(comm) = o {
+                let pr = guarded_plain(|| MultilinearPC::<E>::open(&ck, &p, &pt));
+                cont = Some(match pr {
+                    Out::Ok(proof) => match guarded_plain(|| MultilinearPC::<E>::check(&vk, &comm, &pt, p.evaluate(&pt), &proof)) {
+                        Out::Ok(true) => "accept".to_string(),
+                        Out::Ok(false) => "reject".to_string(),
+                        o2 => format!("check {}: {}", o2.class(), o2.detail()),
+                    },
+                    o2 => format!("open {}: {}", o2.class(), o2.detail()),
+                });
+            }
+            (c, d, cont)
+        }
+        _ => {
+            let maxd = geti(&b["cfg"], "maxd") as usize;
+            let maxpts = geti(&b["cfg"], "maxpts") as usize;
+            let ck = sk::CommitterKey::<E>::new(maxd, maxpts, &mut rng_for("direct-stream-setup", (maxd * 16 + maxpts) as u64));
+            let len = geti(r, "len") as usize;
+            let p = uni_poly("full", 1, len - 1, "direct-adm-stream").coeffs;
+            let o = guarded_plain(|| ck.commit(&p));
+            (cls(o.class()), o.detail(), None)
+        }
+    }
+}
+
 // ------------------------------------------------------------------------------------------------ judge
 pub fn run_line(b: &Value) -> Value {
     let api = gets(b, "api").to_string();
     let want = gets(b, "want").to_string();
     let id = b["id"].as_str().unwrap_or("").to_string();
+    if gets(b, "tag") == "adm" {
+        let (c, d, cont) = run_adm(b);
+        let pred = b["model"][0]["res"].as_str().unwrap_or("").to_string();
+        let (verdict, why) = if want == "refuse" && c == "ok" {
+            ("violation", format!("{} {}: expected refusal, observed a result", api, b["stmt"]))
+        } else if want == "ok" && c != "ok" {
+            ("violation", format!("{} {}: in-domain request aborted or failed: {}", api, b["stmt"], d))
+        } else if want == "ok" && cont.as_deref().map(|x| x != "accept").unwrap_or(false) {
+            ("violation", format!("{} {}: admitted, but the honest continuation gives {}", api, b["stmt"], cont.clone().unwrap()))
+        } else if pred != c {
+            ("drift", format!("{} {}: model predicts {}, code {}", api, b["stmt"], pred, c))
+        } else {
+            ("ok", String::new())
+        };
+        return json!({"id": id, "prop": b["prop"], "scheme": api, "verdict": verdict, "why": why,
+                      "obs": {"setup": c, "detail": d, "ops": [{"check": c, "continuation": cont}]}});
+    }
     let r = match api.as_str() {
         "kzg10" => run_kzg(b),
         "stream" => run_stream(b),
